@@ -372,6 +372,10 @@ void lsCovariance(vf::Ctx & c)
     Mat cov;
     if (pr.handOver == 0) {
       cov = ls.computeEstimateCovariance(static_cast<S>(pr.var));
+      // asking again (e.g. with another variance) must not have been changed by the first question
+      Mat again = ls.computeEstimateCovariance(static_cast<S>(pr.var));
+      VF_CHECK(c, again.rows() == cov.rows() && (again.array() == cov.array()).all(), "solve #%d: computeEstimateCovariance() returns a different matrix when asked a second time (relative change %.3g)",
+        idx, static_cast<double>((again - cov).norm() / cov.norm()));
     } else if (pr.handOver == 1) {
       LeastSquares<S> copy(ls);                         // value semantics: a copy of a solved solver knows its covariance
       cov = copy.computeEstimateCovariance(static_cast<S>(pr.var));
